@@ -857,6 +857,8 @@ class Eval:
             saved_env = self.env
             self.env = saved_env.copy()
             self.env.assume(v.present)
+            saved_written = self.written
+            self.written = []
             ev = self.emit("opt_region", line, opt=v, cond=v.present, body=[])
             self.ev_stack.append(ev.body); self.ctx.append(ev.kind)
             self.vars.append({})
@@ -869,6 +871,10 @@ class Eval:
                 self.vars.pop()
                 self.ev_stack.pop(); self.ctx.pop()
             self.env = saved_env
+            inner = self.written
+            self.written = saved_written
+            for w in inner:
+                self.written.append(sym.ite(v.present, w, const(0, "usize"), "usize"))
             if "else" in n:
                 self.obl("unmodelled", False, "if let .. else", line)
             return UnitV()
@@ -899,6 +905,8 @@ class Eval:
         pre_rem = {sid: sp.rem for sid, sp in self.spans.items()}
         saved_lc = self.loop_consumed
         self.loop_consumed = []
+        saved_written = self.written
+        self.written = []
         ev = self.emit("loop", line, count=count, over=over, body=[])
         self.ev_stack.append(ev.body); self.ctx.append(ev.kind)
         self.vars.append({})
@@ -925,6 +933,15 @@ class Eval:
         body_obls = self.obls
         self.obls = saved_obls
         self.env = saved_env
+        body_written = self.written
+        self.written = saved_written
+        for w in body_written:
+            if w.is_const():
+                self.written.append(binop("mul", count, w, "usize"))
+            elif over is not None and w.op == "sym" and w.args[0].startswith("encoded_len(") and over.name:
+                self.written.append(sym.sym(f"sum_encoded_len({over.name})", "usize", 0, MEM_MAX))
+            else:
+                self.written.append(self.fresh("unknown_loop_bytes", "usize"))
         consumed = self.loop_consumed
         self.loop_consumed = saved_lc
         ev.consumed = consumed
@@ -1623,7 +1640,7 @@ class Eval:
             self.obl("unmodelled", False, f"{api} of non-integer {a[0]!r}", line)
             e = self.fresh("w", ty)
         self.emit("write", line, nbytes=nbytes, order=order, e=e, api=api, env=self.env)
-        self.written.append(("const", nbytes))
+        self.written.append(const(nbytes, "usize"))
         return UnitV()
 
     def m_put_u8(self, r, n, l): return self._put(r, n, l, 1, None, "put_u8")
@@ -1649,7 +1666,7 @@ class Eval:
         self.obl("truncation", hi < (1 << (8 * nb)), f"put_uint({e.key()}, {nb}) silently drops bits above {8*nb} "
                  f"(value max {hi})", line, role=f"put_uint-{nb}")
         self.emit("write", line, nbytes=nb, order=order if nb > 1 else None, e=e, api="put_uint", env=self.env)
-        self.written.append(("const", nb))
+        self.written.append(const(nb, "usize"))
         return UnitV()
 
     def m_put_uint(self, r, n, l): return self._put_uint(r, n, l, "big")
@@ -1662,7 +1679,7 @@ class Eval:
         v = self.as_int(a[0], "u8")
         cnt = self.as_int(a[1], "usize")
         self.emit("write_fill", line, value=v, count=cnt, env=self.env)
-        self.written.append(("expr", cnt))
+        self.written.append(cnt if cnt is not None else self.fresh("unknown_bytes", "usize"))
         return UnitV()
 
     def m_put_slice(self, recv, n, line):
@@ -1672,7 +1689,7 @@ class Eval:
         v = a[0]
         if isinstance(v, VecV):
             self.emit("write_bytes", line, vec=v)
-            self.written.append(("expr", v.len))
+            self.written.append(v.len)
             return UnitV()
         return NotImplemented
 
@@ -1681,7 +1698,7 @@ class Eval:
         if a and isinstance(a[0], BufV) and isinstance(recv, (ObjV, Opaque)):
             ln = self.encoded_len_of(recv)
             self.emit("write_nested", line, obj=recv, ty=getattr(recv, "ty", None))
-            self.written.append(("expr", ln))
+            self.written.append(ln)
             return ResV(UnitV(), err={"kind": "nested_encode"})
         return NotImplemented
 
@@ -1689,7 +1706,8 @@ class Eval:
         a = self.args(n)
         if a and isinstance(a[0], (BufV, VecV)) and isinstance(recv, ObjV):
             self.emit("write_partial", line, obj=recv)
-            self.written.append(("partial", recv))
+            if isinstance(a[0], BufV):
+                self.written.append(sym.sym(f"partial_len({recv.name or recv.ty})", "usize", 0, MEM_MAX))
             if isinstance(a[0], VecV):
                 a[0].len = sym.sym(f"partial_len({recv.name or recv.ty})", "usize", 0, MEM_MAX)
             return ResV(UnitV(), err={"kind": "encode_partial"})
